@@ -566,12 +566,175 @@ pub fn hygiene(r: &mut Report, seed: u64) {
     }
 }
 
+/// A request sent to the unspecified address: a responder refers the lookup to a contact at 0.0.0.0:P
+/// (nothing filters such referrals). Nobody answers there; a third party injects a reply carrying that
+/// request's (sequential) transaction id from its own IP - from another port, and from port P.
+/// Neither comes from the address the request was sent to, so neither may have any effect.
+pub fn unspecified_destination(r: &mut Report, seed: u64) {
+    r.eval();
+    let mut rng = Rng::new(seed);
+    let w = World::with_cfg(seed, NetCfg { lat_min: MS, lat_max: 30 * MS, random_ties: true }, TraceLevel::Off);
+    // the third party: its own IP on another port, its own IP on port P, or a process on the node's own host
+    // (loopback) on another port. A request sent to 0.0.0.0:P is delivered to port P of the sending host, so
+    // only loopback:P is "the address the request was sent to".
+    let spoofer = rng.usize(3);
+    let same_port = spoofer == 1;
+    let spoofer_name = ["other-ip-other-port", "other-ip-same-port", "loopback-other-port"][spoofer];
+    let call = rng.usize(3);
+    let rp = 4000 + rng.usize(1000) as u16;
+    let p_port: u16 = *rng.pick(&[6881u16, 1, 65535, rp]);
+    let payload = rng.usize(3);
+    let case = json!({"class":"unspecified-destination","seed":seed.to_string(),"spoofer":spoofer_name,"call":call,"port":p_port,"payload":payload});
+    let h_addr = SocketAddrV4::new(Ipv4Addr::new(50, 0, 0, 1), 6881);
+    let h_id: [u8; 20] = rng.array();
+    let h = w.raw(h_addr);
+    let target: [u8; 20] = rng.array();
+    let mut ghost_id = target;
+    ghost_id[19] ^= 1;
+    let ghost = SocketAddrV4::new(Ipv4Addr::UNSPECIFIED, p_port);
+    w.set_responder(Some(Box::new(move |w, sock, d| {
+        if sock != h {
+            return false;
+        }
+        let Some(q) = Krpc::parse(&d.bytes) else { return true };
+        if q.y != b'q' {
+            return true;
+        }
+        let mut rd = vec![("id", B::bytes(&h_id))];
+        if q.target().is_some() {
+            rd.push(("nodes", B::Bytes(nodes_bytes(&[(ghost_id, ghost)]))));
+            if !q.is_query("find_node") {
+                rd.push(("token", B::bytes(b"tokn")));
+            }
+        }
+        let bytes = response(&q.t, B::dict(rd), Some(&d.from), Some(&VERSION_RS6)).encode();
+        w.raw_send(sock, &bytes, d.from);
+        true
+    })));
+    let x = w.spawn(NodeSpec::client(Ipv4Addr::new(33, 3, 3, 3), &[h_addr])).expect("x");
+    w.block_on(x.adht.bootstrapped(), 60 * SEC);
+    w.run_for(2 * SEC);
+    let xaddr = x.addr;
+    // X's requests to the ghost contact, as they leave
+    let log: Arc<Mutex<Vec<Vec<u8>>>> = Arc::new(Mutex::new(vec![]));
+    let log2 = log.clone();
+    w.set_fault(Some(Box::new(move |info: &SendInfo| {
+        if info.from == xaddr && info.to == ghost {
+            if let Some(k) = Krpc::parse(info.bytes) {
+                if k.y == b'q' {
+                    log2.lock().unwrap_or_else(|e| e.into_inner()).push(k.t.clone());
+                }
+            }
+        }
+        None
+    })));
+    let z_ip = if spoofer == 2 { Ipv4Addr::LOCALHOST } else { Ipv4Addr::new(99, 9, 9, 9) };
+    let z_addr = SocketAddrV4::new(z_ip, if same_port { p_port } else if p_port == 7777 { 7778 } else { 7777 });
+    let z = w.raw(z_addr);
+    let a = x.adht.clone();
+    let t = Id::from(target);
+    enum Out {
+        Peers(Vec<Vec<SocketAddrV4>>),
+        Put(bool),
+        Nodes(Vec<SocketAddrV4>),
+    }
+    let now = w.now();
+    let mut task: Task<Out> = match call {
+        0 => Task::new(now, async move { Out::Peers(a.get_peers(t).collect::<Vec<_>>().await) }),
+        1 => Task::new(now, async move { Out::Put(a.announce_peer(t, Some(7777)).await.is_ok()) }),
+        _ => Task::new(now, async move { Out::Nodes(a.find_node(t).await.iter().map(|n| n.address()).collect()) }),
+    };
+    let mut handled = 0usize;
+    let mut injected = 0u64;
+    let end = w.now() + 120 * SEC;
+    let me: [u8; 20] = [0x5a; 20];
+    let sybil = SocketAddrV4::new(Ipv4Addr::new(99, 9, 9, 10), 6881);
+    loop {
+        if task.poll(w.now()) {
+            break;
+        }
+        let tids: Vec<Vec<u8>> = log.lock().unwrap_or_else(|e| e.into_inner()).clone();
+        for tid in tids.iter().skip(handled) {
+            handled += 1;
+            let bytes = match payload {
+                0 => response(tid, B::dict(vec![("id", B::bytes(&me)), ("token", B::bytes(b"evil")), ("values", B::List(vec![B::Bytes(addr_bytes(&BOGUS_PEER))]))]), Some(&BOGUS_VOTE), Some(&VERSION_RS6)).encode(),
+                1 => response(tid, B::dict(vec![("id", B::bytes(&me)), ("token", B::bytes(b"evil")), ("nodes", B::Bytes(nodes_bytes(&[({ let mut i = target; i[19] ^= 2; i }, sybil)])))]), Some(&BOGUS_VOTE), Some(&VERSION_RS6)).encode(),
+                _ => response(tid, B::dict(vec![("id", B::bytes(&me))]), Some(&BOGUS_VOTE), Some(&VERSION_RS6)).encode(),
+            };
+            w.raw_send_exact(z, &bytes, xaddr, (1 + rng.below(200)) * MS);
+            injected += 1;
+        }
+        match w.step_until(end) {
+            Step::Idle | Step::Stuck => {
+                task.poll(w.now());
+                break;
+            }
+            _ => {}
+        }
+    }
+    let mut sybil_asked = false;
+    w.run_for(4 * SEC);
+    while let Some((_, d)) = w.raw_recv(z) {
+        if Krpc::parse(&d.bytes).map(|k| k.y == b'q').unwrap_or(false) {
+            sybil_asked = true;
+        }
+    }
+    let snap = snapshot(&w, &x);
+    w.set_fault(None);
+    let kind = ["other-ip-other-port", "other-ip-same-port", "loopback-other-port"][spoofer];
+    let fail = |r: &mut Report, what: &str, text: &str| r.violation(&format!("effect/unspecified-destination/{kind}/{what}"), text, case.clone(), json!({"injected": injected}));
+    if injected == 0 {
+        r.count("unspecified_destination/request-to-0.0.0.0-never-seen");
+    } else {
+        r.count(&format!("unspecified_destination/injected/{kind}"));
+        r.nontrivial(mix(seed, w.order_hash()));
+        match task.result.take() {
+            None => fail(r, "call-did-not-complete", "the call did not complete"),
+            Some(Out::Peers(p)) => {
+                if p.iter().flatten().any(|a| *a == BOGUS_PEER) {
+                    fail(r, "bogus-peers-yielded", "a reply from a third party's address to a request sent to 0.0.0.0:P surfaced its peers through get_peers");
+                }
+            }
+            Some(Out::Put(ok)) => {
+                if ok && payload != 2 {
+                    fail(r, "put-ok", "announce_peer returned Ok although no addressed node exists: the third party's reply was taken as a token-bearing answer");
+                }
+            }
+            Some(Out::Nodes(n)) => {
+                if n.iter().any(|a| *a == z_addr || *a == sybil) {
+                    fail(r, "adversary-among-found-nodes", "find_node returned the third party or its sybil");
+                }
+            }
+        }
+        if let Some(sn) = snap {
+            if sn.table.nodes.iter().chain(sn.signed_table.nodes.iter()).any(|n| n.1 == z_addr || n.1 == sybil) {
+                fail(r, "adversary-in-routing-table", "the third party (or its sybil) entered the routing table");
+            }
+            if sn.public_address == Some(BOGUS_VOTE) {
+                fail(r, "address-vote-counted", "the third party's ip vote was counted");
+            }
+        }
+        if sybil_asked && payload == 1 {
+            fail(r, "sybil-followed", "the lookup followed the third party's referral");
+        }
+    }
+    drop(x);
+    for (thread, loc, msg) in crate::take_panics() {
+        r.violation(&format!("panic/{loc}"), &format!("thread {thread} panicked: {msg}"), case.clone(), json!({}));
+    }
+}
+
 pub fn run(a: &Args) -> Report {
     let mut r = Report::new("C09");
     if let Some(path) = &a.replay {
         let v: Value = serde_json::from_str(&std::fs::read_to_string(path).unwrap_or_default()).unwrap_or_default();
         let c = &v["case"];
         let s = |k: &str| c[k].as_str().unwrap_or("").to_string();
+        if c["class"].as_str() == Some("unspecified-destination") {
+            let seed = s("seed").parse().unwrap_or(1);
+            super::guarded(&mut r, c.clone(), |r| unspecified_destination(r, seed));
+            return r;
+        }
         if c["class"].as_str() == Some("tid-hygiene") {
             let seed = s("seed").parse().unwrap_or(1);
             super::guarded(&mut r, c.clone(), |r| hygiene(r, seed));
@@ -648,6 +811,11 @@ pub fn run(a: &Args) -> Report {
         let seed = rng.u64();
         super::guarded(&mut r, json!({"class":"tid-hygiene","seed":seed.to_string()}), |r| hygiene(r, seed));
         r.count("hygiene_worlds");
+    }
+    for _ in 0..(if a.quick() { 320 } else { 6400 }) / a.nshards.max(1) {
+        let seed = rng.u64();
+        super::guarded(&mut r, json!({"class":"unspecified-destination","seed":seed.to_string()}), |r| unspecified_destination(r, seed));
+        r.count("unspecified_destination_worlds");
     }
     r.notes.insert("injection_space".into(), json!(format!("{} cases = bases x 3 calls x (2 sources x 4 tids x 3 points x 5 payloads + 9 exact-address duplicate cases)", cases.len())));
     r
